@@ -209,6 +209,8 @@ pub fn c07_scenarios(quick: bool) -> Vec<Scenario> {
     v.push(mk("capacity-wait", Cfg { c_stream_window: Some(4), s_stream_window: Some(4), ..Cfg::default() }, vec![StreamSpec::new(MsgSpec { use_capacity: true, ..m(&[10]) }, MsgSpec { use_capacity: true, ..m(&[9]) })]));
     // readiness waits: the second request is parked until the first stream closes
     v.push(mk("parked-request", Cfg { s_max_concurrent: Some(1), c_initial_max_send_streams: Some(1), ..Cfg::default() }, vec![StreamSpec::new(m(&[3]), m(&[3])), StreamSpec::new(m(&[]), m(&[2]))]));
+    // a parked request that its owner resets before it was ever sent, then a readiness wait on the same SendRequest
+    v.push(mk("parked-reset-ready", Cfg { s_max_concurrent: Some(1), c_initial_max_send_streams: Some(1), c_parked_reset_then_ready: true, ..Cfg::default() }, vec![StreamSpec { s_recv: RecvMode::Late, ..StreamSpec::new(m(&[3, 3]), m(&[3])) }]));
     // user ping outstanding, connection kept open by a SendRequest
     v.push(mk("ping-keepalive", Cfg { ping: true, keep_send_request: true, ..Cfg::default() }, vec![StreamSpec::new(m(&[]), m(&[1]))]));
     // trailer reads
